@@ -51,7 +51,42 @@ const (
 	cmdID      = 0x9102
 	stallAfter = 15 * time.Second
 	cmdTimeout = 20 * time.Second // OverTimeDuration of every command; never fires on a healthy run
+	// "a command for a key that is not online fails at once": the manager answers in the closure that looks
+	// the key up.  Its latency is measured on every such call (evidence: extra.noexist_latency_*); one slow
+	// answer is only slowness, it is a violation when the SAME call, repeated at once in a sequential script
+	// (nothing else is going on), is slow again.
+	slowNoExist = 5 * time.Second
 )
+
+// latency of manager ErrNotExistKey answers in this child (microseconds)
+var (
+	nxMu    sync.Mutex
+	nxMax   int64
+	nxCount int64
+	nxHist  [5]int64 // <1ms <10ms <100ms <1s >=1s
+)
+
+func nxRecord(d time.Duration) {
+	us := d.Microseconds()
+	nxMu.Lock()
+	defer nxMu.Unlock()
+	nxCount++
+	if us > nxMax {
+		nxMax = us
+	}
+	switch {
+	case us < 1000:
+		nxHist[0]++
+	case us < 10000:
+		nxHist[1]++
+	case us < 100000:
+		nxHist[2]++
+	case us < 1000000:
+		nxHist[3]++
+	default:
+		nxHist[4]++
+	}
+}
 
 const required = "at most one live owner per key; a refused connection is closed and told so, the first is not affected; leave carries the connection's own key and frees only it; a freed key can be taken again; commands go to the current owner; a key that is not online fails at once; one join and one leave callback per connection"
 
@@ -440,8 +475,15 @@ func (q *seqRun) exec(tok string) []string {
 			if online {
 				q.note("key %q held by connection %d but the call returned ErrNotExistKey", key, h)
 			}
-			if res.dur >= cmdTimeout {
-				q.note("ErrNotExistKey for key %q only after %v (the command's own timeout)", key, res.dur)
+			nxRecord(res.dur)
+			if res.dur >= slowNoExist { // slow once is slowness; ask again, nothing else is running
+				again := call(q.s, key, 60000+i)
+				if again.kind == "noexist" {
+					nxRecord(again.dur)
+				}
+				if again.kind == "noexist" && again.dur >= slowNoExist {
+					q.note("ErrNotExistKey for key %q only after %v, and after %v when asked again", key, res.dur, again.dur)
+				}
 			}
 			return []string{fmt.Sprintf("n:%d", i)}
 		}
@@ -506,6 +548,10 @@ type opResult struct {
 	NT       bool     `json:"nt"`
 	Stalled  string   `json:"stalled"`
 	EmptyKey bool     `json:"emptykey"`
+	// cumulative latency statistics of manager ErrNotExistKey answers in this child
+	NxMax   int64    `json:"nxmax"`
+	NxCount int64    `json:"nxcount"`
+	NxHist  [5]int64 `json:"nxhist"`
 }
 
 func guard(res *opResult, f func()) {
@@ -837,9 +883,7 @@ func runConc(seed int64, nconn, nkeys, ncallers int) (res opResult) {
 						note("key %s was held by connection %d during the whole call [%d,%d] but it returned ErrNotExistKey", sr.key, c, sr.inv, sr.resp)
 					}
 				}
-				if sr.dur >= cmdTimeout {
-					note("ErrNotExistKey for key %s only after %v (the command's own timeout)", sr.key, sr.dur)
-				}
+				nxRecord(sr.dur) // measured only: under concurrency a slow answer cannot be told from a busy machine
 			case sr.kind == "stopped" || sr.kind == "wfail" || sr.kind == "timeout":
 				// handed to a connection that ended before its terminal read the command
 				obs = "r:*:*"
@@ -940,7 +984,13 @@ func min64(a, b int64) int64 {
 
 func atoi(s string) int { v, _ := strconv.Atoi(s); return v }
 
-func jsonOf(r opResult) string { b, _ := json.Marshal(r); return string(b) }
+func jsonOf(r opResult) string {
+	nxMu.Lock()
+	r.NxMax, r.NxCount, r.NxHist = nxMax, nxCount, nxHist
+	nxMu.Unlock()
+	b, _ := json.Marshal(r)
+	return string(b)
+}
 
 func textOf(r opResult) string {
 	out := r.Ans
@@ -994,10 +1044,26 @@ type parent struct {
 	env   []string
 	ch    *Child
 	fatal int
+	// ErrNotExistKey latency: totals of finished children + the running child's cumulative numbers
+	nxDoneCount, nxDoneMax int64
+	nxDoneHist             [5]int64
+	nxCur                  opResult
+}
+
+func (p *parent) nxRoll() { // the current child is gone: bank its numbers
+	p.nxDoneCount += p.nxCur.NxCount
+	if p.nxCur.NxMax > p.nxDoneMax {
+		p.nxDoneMax = p.nxCur.NxMax
+	}
+	for i := range p.nxDoneHist {
+		p.nxDoneHist[i] += p.nxCur.NxHist[i]
+	}
+	p.nxCur = opResult{}
 }
 
 func (p *parent) child() *Child {
 	if p.ch == nil || p.ch.Dead {
+		p.nxRoll()
 		ch, err := StartChild(p.bin, p.env, 1<<16)
 		if err != nil {
 			panic(err)
@@ -1042,6 +1108,7 @@ func (p *parent) run(req string) *opResult {
 			if err := json.Unmarshal([]byte(ans), &res); err != nil {
 				panic("child answered " + Trunc(ans, 300))
 			}
+			p.nxCur = res
 			if res.Stalled == "" {
 				return &res
 			}
@@ -1174,4 +1241,8 @@ func c11(c *Ctx) {
 	if p.fatal >= 3 {
 		c.Count("aborted-after-3-fatal")
 	}
+	p.nxRoll()
+	c.Extra["noexist_answers"] = p.nxDoneCount
+	c.Extra["noexist_latency_us_max"] = p.nxDoneMax
+	c.Extra["noexist_latency_hist_lt1ms_lt10ms_lt100ms_lt1s_ge1s"] = p.nxDoneHist
 }
